@@ -267,6 +267,31 @@ func mergeConfigs(ctx context.Context, src Config, dest *Config) {
 		destFieldValue := destValue.Elem().Field(i)
 
 		if srcFieldValue.Kind() == reflect.Map {
+			if srcTypes, ok := srcFieldValue.Interface().(map[string]map[string]*ReplaceType); ok {
+				// replace-type: every (package path, type name) entry that dest
+				// does not define itself is inherited from src.
+				destTypes := destFieldValue.Interface().(map[string]map[string]*ReplaceType)
+				for pkgPath, srcPkgTypes := range srcTypes {
+					for typeName, replacement := range srcPkgTypes {
+						if destTypes == nil {
+							destTypes = map[string]map[string]*ReplaceType{}
+							destFieldValue.Set(reflect.ValueOf(destTypes))
+						}
+						if destTypes[pkgPath] == nil {
+							destTypes[pkgPath] = map[string]*ReplaceType{}
+						}
+						if _, exists := destTypes[pkgPath][typeName]; exists {
+							continue
+						}
+						if replacement != nil {
+							replacementCopy := *replacement
+							replacement = &replacementCopy
+						}
+						destTypes[pkgPath][typeName] = replacement
+					}
+				}
+				continue
+			}
 			srcMap, ok := srcFieldValue.Interface().(map[string]any)
 			if !ok {
 				log.Debug().Msg("field value is not `any`, skipping merge")
